@@ -38,6 +38,7 @@ def main(argv=None):
     except HarnessError as e:
         print("HARNESS-ERROR property=%s %s" % (prop, e))
         return 2
+    all_tasks = list(tasks)
     if a.only:
         tasks = [t for t in tasks if a.only in t.get("label", "")]
     # biggest tasks first (cost hint), stable order otherwise
@@ -50,7 +51,7 @@ def main(argv=None):
         mod.post(stats, tier, seed)
     return runner.finish(prop, tier, seed, mod.LEVEL, stats, errors, t0, mod.RULE, mod.ASSUMPTIONS,
                          replay_fn=mod.replay, bounds=mod.bounds(tier) if hasattr(mod, "bounds") else None,
-                         vacuity=getattr(mod, "VACUITY", None), extra=getattr(mod, "EXTRA", None))
+                         vacuity=getattr(mod, "VACUITY", None), extra=getattr(mod, "EXTRA", None), all_tasks=all_tasks)
 
 
 def replay(path):
@@ -59,6 +60,11 @@ def replay(path):
         rec = json.load(f)
     prop = rec["property"]
     mod = importlib.import_module("xmc.props.%s" % prop.lower())
+    if rec.get("needs_warmup"):
+        from xmc import runner
+
+        n = runner._warm_up(mod.replay, mod.tasks(rec.get("tier", "quick"), rec.get("seed", 0)), exclude_cfg=rec["config"])
+        print("warm-up: %d configurations executed once in this process first" % n)
     res = mod.replay(rec["task"], rec["script"])
     print("replay of %s: property=%s config=%s" % (path, prop, json.dumps(rec["config"])))
     print("script=%s" % rec["script"])
